@@ -164,7 +164,13 @@ impl HttpClient {
         let host = http_settings
             .hostname
             .map(S::into)
-            .unwrap_or_else(|| address.ip().to_string());
+            .unwrap_or_else(|| {
+                match address.ip() {
+                    // An IPv6 literal must be enclosed in brackets inside a URL
+                    std::net::IpAddr::V6(ip) => format!("[{ip}]"),
+                    ip => ip.to_string(),
+                }
+            });
 
         Ok(Self {
             client,
